@@ -1,8 +1,8 @@
 """check configuration for C09"""
 
 CFG = {'module': 'Dnp3.Props.C09',
- 'gen': ['Variations.lean', 'Qualifiers.lean', 'AppCodes.lean', 'Attrs.lean'],
- 'engines': ['parse', 'attr', 'db', 'outstationdb'],
+ 'gen': ['Variations.lean', 'Qualifiers.lean', 'AppCodes.lean', 'Attrs.lean', 'File70.lean'],
+ 'engines': ['parse', 'attr', 'file70', 'db', 'outstationdb'],
  'monitors': None,
  'exhaustive_thorough': True,
  'rule': 'engine parse: (1) application header: every control octet x function octets (thorough: all 256; '
@@ -35,7 +35,25 @@ CFG = {'module': 'Dnp3.Props.C09',
          'generator-made objects: type code x length octet x payload presence grid (thorough: all 256 type '
          'codes), list boundaries 0 / 1 / 127 / 128 / 129 / 255 entries in both encodings with the usual '
          'mistakes, random object sequences with truncation / extension / mutation / insertion, qualifiers '
-         '0x00 0x01 0x06 0x17 0x28, function codes 1 2 3 129 130.',
+         '0x00 0x01 0x06 0x17 0x28, function codes 1 2 3 129 130. Engine file70 (file-transfer objects, group 70, '
+         'qualifier 0x5B): every variation with a writer (g70v2 v3 v4 v5 v7) built through the real '
+         'Group70VarN::write / HeaderWriter::write_free_format after start_request: every numeric field at 0 / 1 / '
+         'mid / max of its width one at a time, every FileStatus code, every permission bit, timestamps up to '
+         '2^48-1 (and beyond: masked), block numbers with and without the last-block bit, data blocks of 0..2035 '
+         'octets, enumerations also spelled Other(code) / Reserved(code); strings of six classes (empty, ASCII, 2- / '
+         '3- / 4-octet UTF-8, scalar values at the edges of every form incl. NUL) x lengths 0..1000 characters in '
+         'every string position, sizes 65522..65536 around what 16 bits can express; capacities size-1 / size / '
+         'size+1 / 0..12 / 249 / 2048 / random; the master tasks AuthFileTask, OpenFileTask, CloseFileTask, '
+         'GetFileInfoTask, WriteBlockTask through RequestWriter as MasterSession::send_request does; the '
+         'FileReadTask driven through AUTHENTICATE / OPEN / READ / CLOSE by generated responses (right, wrong '
+         'variation, bad status, wrong block, last-block bit, malformed, two headers), its request after every '
+         'step; every built fragment parsed by ParsedFragment::parse (+ lazy iterator, Display) and by an '
+         'independent reference decoder; the parser on generator-made fragments: well-formed objects of all seven '
+         'variations (1..4 per fragment, request and response function codes) and malformed ones (size field, '
+         'offset constant, password offset / size, free-format length, count octet, trailing octets inside / '
+         'outside, truncation at every octet, shortened, qualifier, variation, bit flips, strings that are not '
+         'UTF-8: stray continuation, truncated sequence, overlong, surrogate, > U+10FFFF); DirectoryReader on '
+         'concatenated file descriptors, well-formed and damaged, in random block splits.',
  'trusted_base': ['hand-written Lean model of app/parse/parser.rs (header walk), range.rs, count.rs, bit.rs, '
                   'bytes.rs, prefix.rs, free_format.rs, attr.rs (AttrValue::parse, parse_from_range, '
                   'parse_prefixed), file/g70v*.rs (read), header.rs, str::from_utf8; tied by differential '
@@ -60,13 +78,25 @@ CFG = {'module': 'Dnp3.Props.C09',
                   'hooks/attr_probe.rs (exposes the attribute database, response writers, request builder and '
                   'parser; no behaviour change); reference attribute decoder (IEEE 1815 attribute data types) '
                   'and READ bookkeeping inside harness/src/eng_attr.rs',
+                  'hand-written Lean model of app/file/g70v*.rs (write, read with values), permissions.rs, '
+                  'HeaderWriter::write_free_format, the master file tasks\' request builders, FileReadTask::handle, '
+                  'DirectoryReader::completed (Model/File70.lean) tied by differential execution (engine file70); field '
+                  'order / widths of every write and read, offset constants, byte_length, enum codes, permission bits, '
+                  'REQUEST_ID, the builders\' struct literals, the steps of write_free_format: regenerated from source '
+                  '(Gen/File70.lean)',
+                  'hooks/file70_probe.rs (exposes the object writers, the master file tasks, DirectoryReader and the parser; '
+                  'no behaviour change); reference group-70 codec (IEEE 1815 object definitions) inside '
+                  'harness/src/eng_file70.rs',
                   'hand-written Lean model of outstation/database/** (event buffer, static database, '
                   'response writers) tied by differential execution of the real Database (engine db) and of '
                   'the real OutstationTask (engine outstationdb)'],
  'assumptions': ['octets are values < 256',
-                 'group 70 file objects: accepted / rejected and consumed length are modelled and compared; '
-                 'their decoded field values are not itemised (objs -); group 0 attribute values are itemised '
-                 'by engine attr',
+                 'group 70 file objects: engine parse compares accepted / rejected and consumed length (objs -); '
+                 'their decoded field values are itemised by engine file70 (enumerations by wire code: Other(x) / '
+                 'Reserved(x) with a named code x is a second spelling of the same wire value); group 0 attribute '
+                 'values are itemised by engine attr',
+                 'Group70Var6::write and Group70Var8::write exist only under #[cfg(test)]: those two variations are '
+                 'exercised on the parser side only; the outstation of this library version emits no group-70 object',
                  'floating-point attribute values are their IEEE-754 bit patterns (no float arithmetic is '
                  'involved in encoding or parsing)',
                  'outstation response writers (range/event/prefix writers) are exercised by the outstation '
@@ -87,7 +117,13 @@ CFG = {'module': 'Dnp3.Props.C09',
                'agreement of the typed value parser with the object walk, and for the outstation response '
                'writer at every capacity, cursor content and selection: a fragment is its prior content plus '
                'whole objects, which parse back, and across fragments the series is exactly the objects the '
-               'READ denotes; model '
+               'READ denotes; file-transfer objects (group 70): parse (encode o) = o consuming exactly the '
+               'encoded octets for every variation and every field value with strings as UTF-8 octet lists (octet '
+               'length, not character count), the parser accepts an object / a free-format header only if offsets are '
+               'the constants, size fields the octet lengths, the header length the object length and count 1, '
+               'agreement of the typed parser with the object walk, write_free_format and the master\'s file '
+               'requests for every capacity: written completely and parsed back to what was built, or a write error; '
+               'directory listings; model '
                'tied to the code by the regenerated tables and by differential execution of the real parser, '
                'iterators, Display and builders',
  'level_note': 'trusted: Lean kernel (+ propext/Classical.choice/Quot.sound), translate.py + '
@@ -95,4 +131,5 @@ CFG = {'module': 'Dnp3.Props.C09',
  'engine_monitors': {'db': ['response_well_formed'], 'outstationdb': ['fits_and_parses'],
                      'attr': ['attr_response_parses_back', 'attr_fragment_is_whole_objects',
                               'attr_parser_accepts_only_exact', 'attr_request_parses_back',
-                              'response_within_capacity', 'no_panic']}}
+                              'response_within_capacity', 'no_panic'],
+                     'file70': ['file_object_parses_back', 'file_parser_accepts_only_exact', 'no_panic']}}
